@@ -177,6 +177,9 @@ def run (op : String) (a : Json) : Option (Except String Json) :=
       let r := send cfg (fun id => ws!"R(" ++ id ++ ws!")") req h (← strF a "response")
       let evs := jList jEvent r.events
       pure <| if r.ok then ok (jObj [("events", evs)]) else jObj [("err", "ClientValueError"), ("events", evs)]
+  | "transport.handle" => some do
+      let s ← getNat a "status"
+      pure <| if handleResponse s then ok (Json.str "body") else err "HTTPError"
   | _ => none
 
 end OpsWsdl
